@@ -105,7 +105,7 @@ def run_case(E, case):
         raise
     except Exception as e:      # noqa: BLE001 - the code under test raised on a valid state
         from ..harness import solve_exists
-        res_, m = solve_exists(inp.pre, True)
+        res_, m = solve_exists(list(inp.pre) + list(getattr(e, "gb_pc", [])), True)
         return {"verdict": "sat", "solver_s": 0.0, "symex_s": time.time() - t0, "n_queries": 1, "obligations": 0, "failed_obligations": [],
                 "witnesses": {}, "encoded": sorted(E.encoded),
                 "candidates": [{"signature": f"{PROP}:raises:{type(e).__name__}:{f}:{case['rep']}", "case": case,
